@@ -309,9 +309,8 @@ func HasValidSignatures(hash []byte, signatures []string, Nsigs int, pubkeys []*
 		for i, pubkey := range pubkeysCopy {
 			if sig.Verify(hash, pubkey) {
 				validSignatures++
-				if len(pubkeysCopy) > 1 {
-					pubkeysCopy = slices.Delete(pubkeysCopy, i, i+1)
-				}
+				// each public key can only be counted once
+				pubkeysCopy = slices.Delete(pubkeysCopy, i, i+1)
 				break
 			}
 		}
